@@ -6,7 +6,7 @@ LEAN_TARGETS = ["LyModel.Props.C12", "LyModel.XmlTree.OpaqDoc", "LyModel.XmlTree
 AUDIT = "Audit/C12.lean"
 GENERATED = ["XmlEsc", "JsonEsc", "JsonTyping", "XmlNsFixes"]
 ASSUMPTIONS = ["UTF-8 well-formedness of the output is judged by expat / Python json in the correspondence run, not by the Lean spec readers",
-               "tree-level structure (tags, namespaces, member names) is covered by the api-level round-trip harness, not by a theorem yet"]
+               "tree-level structure is under theorems for data nodes without metadata (xml_document_faithful, json_document_faithful) and for opaque XML nodes (opaque_document_faithful); metadata and formatted output are covered by the api-level round-trip harness only"]
 TRUSTED = ["Python xml.parsers.expat and json as the independent parsers"]
 
 
